@@ -13,8 +13,8 @@ each item of the analysed tree back to the frozen name of the item it *is*:
   3. it shares an alias with exactly one frozen item of the same simple name and kind that no longer
      exists under its frozen path                                         -> that frozen item
      (the item moved out of a private module; both are still reachable as e.g. `prelude::Seq`)
-  4. it is the only item of its simple name and kind in the tree, and exactly one frozen item of that
-     name and kind is missing from the tree                               -> that frozen item
+  4. it is the only item of its simple name and kind not accounted for by rules 1-3, and exactly one frozen
+     item of that name and kind is missing from the tree and not yet assigned      -> that frozen item
      (a private item moved without leaving an alias)
 
 The fact text is then rewritten with the frozen names (whole-path matches only), modules are mapped by the
@@ -117,10 +117,11 @@ def compute_renames(names, fz):
     for d, k in defs.items():
         if d in ren or (d in fdefs and fdefs[d] == k) or k == "Mod":
             continue
-        same_cur = [x for x in defs if simple(x) == simple(d) and defs[x] == k]
+        # among the items of this simple name and kind, those not yet accounted for on either side (an item that kept its path,
+        # or was mapped by rules 2-3, is accounted for): one left over on each side is the same item
+        same_cur = [x for x in defs if simple(x) == simple(d) and defs[x] == k and x not in ren and not (x in fdefs and fdefs[x] == k)]
         c = [f for f in missing if f not in taken and fdefs[f] == k and simple(f) == simple(d)]
-        same_fz = [f for f in fdefs if simple(f) == simple(d) and fdefs[f] == k]
-        if len(same_cur) == 1 and len(c) == 1 and len(same_fz) == 1:
+        if len(same_cur) == 1 and len(c) == 1:
             ren[d] = c[0]
             taken.add(c[0])
     # modules: a module that is new (or renamed) maps to the frozen module most of its mapped items came from,
